@@ -400,6 +400,15 @@ def strip(e, unwrap=True):
         # a field of a tuple / struct literal: the operand
         if inner[0] == "agg" and inner[1] == "tuple" and e[2].isdigit() and int(e[2]) < len(inner[3]):
             return inner[3][int(e[2])]
+        # the payload of an enum value built in this (inlined) body, read back through a match on its variant:
+        # `(phi(Ok{x} | Err{y}) as Ok).0` is x (only the alternative of the matched variant can reach the arm)
+        if inner[0] == "downcast" and e[2].isdigit():
+            v = inner[1]
+            alts = v[1] if v[0] == "phi" else (v,)
+            if alts and all(a[0] == "agg" and a[1] == "adt" and isinstance(a[2], str) for a in alts):
+                hit = [a for a in alts if a[2].split("::")[-1] == inner[2]]
+                if len(hit) == 1 and int(e[2]) < len(hit[0][3]):
+                    return hit[0][3][int(e[2])]
         return ("field", inner, e[2], e[3] if len(e) > 3 else "")
     if t == "index":
         return ("index", strip(e[1], unwrap), strip(e[2], unwrap))
